@@ -17,15 +17,15 @@ theorem createReturn_gas {κ : Type} {C : CpOps κ} {cfg : Cfg} {w w' : World} {
           let w ← C.revert w cp
           Except.ok (x, w) : R (Interp.ChildResult × World))
         else do
-          let js ← ofOpt "set_code" (Journal.setCode (C.commit w).js a hash)
-          Except.ok (y, ({ C.commit w with js := js } : World).addCode hash out)) = .ok (r', w') →
+          let w2 ← C.setCode (C.commit w) a hash
+          Except.ok (y, w2.addCode hash out)) = .ok (r', w') →
       r'.gasRemaining ≤ r.gasRemaining := by
     intro c _ x y hash out hx hy h
     split at h
     · obtain ⟨w1, _, h⟩ := bind_ok h
       simp only [Except.ok.injEq, Prod.mk.injEq] at h
       rw [← h.1]; exact hx
-    · obtain ⟨js, _, h⟩ := bind_ok h
+    · obtain ⟨w2, _, h⟩ := bind_ok h
       simp only [Except.ok.injEq, Prod.mk.injEq] at h
       rw [← h.1]; exact hy
   unfold createReturn at h
@@ -104,6 +104,7 @@ theorem frameEnd_gas {L0 : Nat} {cfg : Cfg} {top : JFrame} {rest : List JFrame} 
   obtain ⟨mem, _, h⟩ := bind_ok h
   obtain ⟨⟨res, w1⟩, hret, h⟩ := bind_ok h
   have hres : res.gasRemaining ≤ s.gas.remaining := by
+    unfold frameReturn at hret
     split at hret
     · rw [callReturn_res hret]; exact Nat.le_refl _
     · exact createReturn_gas hret
@@ -127,6 +128,7 @@ theorem frameAction_gas {L0 : Nat} {cfg : Cfg} {top : JFrame} {rest : List JFram
   obtain ⟨⟨fr, w1⟩, hmk, h⟩ := bind_ok h
   have hfr : (∀ r, fr = .result r → r.gasRemaining ≤ a.gasLimit) ∧
       (∀ f, fr = .frame f → f.interp.gas = Gas.new a.gasLimit) := by
+    unfold makeFrame at hmk
     cases a with
     | call i =>
       obtain ⟨x, y⟩ := makeCallFrame_gas hmk
